@@ -3,7 +3,8 @@
     strings) and the reference ASTs of C08/RegexRef.v: equal normal forms, hence (norm_sound) the
     same matches on every input.  An edit of a pattern that changes what it matches makes one of
     the [tie_*] lemmas fail; a respelling with the same normal form does not. *)
-From SpyneV Require Import C08.Regex C08.RegexProofs C08.RegexRef C08.RegexDt C08.DtModel Gen.Regexes.
+From SpyneV Require Import C08.Regex C08.RegexProofs C08.RegexRef C08.RegexDt C08.DtModel C08.DurModel
+                           C08.RegexDurRef C08.RegexDur Gen.Regexes.
 
 Lemma tie_DATE : norm rx_DATE_PATTERN = ref_DATE.
 Proof. vm_compute. reflexivity. Qed.
@@ -24,6 +25,9 @@ Proof. vm_compute. reflexivity. Qed.
 Lemma tie_inbase_date : norm rx_inbase_date = ref_DATE.
 Proof. vm_compute. reflexivity. Qed.
 Lemma tie_inbase_time : norm rx_inbase_time = ref_TIME.
+Proof. vm_compute. reflexivity. Qed.
+
+Lemma tie_duration : norm rx_inbase_duration = ref_DUR.
 Proof. vm_compute. reflexivity. Qed.
 
 Lemma match_tie r ref : norm r = ref -> forall s, re_match r s = re_match ref s.
@@ -61,6 +65,9 @@ Proof. unfold date_from_unicode_rx. rewrite (match_tie _ _ tie_date_offset). app
 
 Theorem time_reader_gen s : time_from_unicode_rx rx_inbase_time s = time_from_unicode s.
 Proof. unfold time_from_unicode_rx. rewrite (match_tie _ _ tie_inbase_time). apply time_reader_ref. Qed.
+
+Theorem duration_reader_gen s : duration_from_unicode_rx rx_inbase_duration s = duration_from_unicode s.
+Proof. unfold duration_from_unicode_rx. rewrite (match_tie _ _ tie_duration). apply duration_reader_ref. Qed.
 
 (** DATETIME_PATTERN is DATE_PATTERN + '[T ]' + TIME_PATTERN, and the three compiled patterns are
     DATETIME_PATTERN followed by \Z, Z\Z and OFFSET_PATTERN \Z: same matches as the composed ASTs *)
